@@ -31,7 +31,7 @@ FUNCTIONS = [
 MUST_REACH = ["mbox.Mailbox._mbox_pattern_to_re", "mbox.Mailbox.list", "mbox.Mailbox._list_simple", "mbox.Mailbox.create", "mbox.Mailbox.delete", "mbox.Mailbox.rename", "mbox._helper_rename_folder", "client.Authenticated.do_list"]
 BOUNDS = {
     "quick": {"patterns": "all strings <= 3 over {a, b, /, %, *, ., +, SP, (} with references '' and 'a/' (each an equivalence query over names of unbounded length)", "histories": "2 commands from a menu of 20 namespace commands, then 10 LIST/LSUB probes", "rename_step": "every subset of 7 names {a, a/a, a/b, a/ab, ab, b, a/b/a} created, then one of 8 RENAMEs, then the probes"},
-    "thorough": {"patterns": "length <= 4", "histories": "3 commands, restart inserted at a symbolic position"},
+    "thorough": {"patterns": "length <= 4", "histories": "3 commands when the first is a CREATE (7 of the 20 menu entries), 2 commands with an orderly restart inserted at a symbolic position for every first command"},
 }
 SYMBOLIC = ["mailbox name witness (z3 strings, unbounded)", "history selectors", "restart position"]
 REALISED = ["history selectors are enumerated by the decision tree"]
@@ -287,7 +287,11 @@ def jobs(tier):
             js.append({"name": f"history[k=2,restart,rs={rsv},c1=1]", "fn": "history", "params": {"k": 2, "c1": 1, "restart": True, "rsv": rsv}, "timeout": T, "per_path": 120, "unblock": UNBLOCK})
     else:
         for c1 in range(20):
-            js.append({"name": f"history[k=3,c1={c1}]", "fn": "history", "params": {"k": 3, "c1": c1, "restart": False}, "timeout": 3000, "per_path": 120, "unblock": UNBLOCK})
+            if MENU[c1][0] == "create":
+                # three-command histories start with a CREATE (anything else on the initial namespace is a refusal,
+                # which two-command histories already cover from the same state)
+                js.append({"name": f"history[k=3,c1={c1}]", "fn": "history", "params": {"k": 3, "c1": c1, "restart": False}, "timeout": 3000, "per_path": 120, "unblock": UNBLOCK})
+            js.append({"name": f"history[k=2,c1={c1}]", "fn": "history", "params": {"k": 2, "c1": c1, "restart": False}, "timeout": T, "per_path": 120, "unblock": UNBLOCK})
             js.append({"name": f"history[k=2,restart,c1={c1}]", "fn": "history", "params": {"k": 2, "c1": c1, "restart": True}, "timeout": T, "per_path": 120, "unblock": UNBLOCK})
     for pair in range(len(PAIRS)):
         for lo in range(0, 128, 16):
